@@ -17,7 +17,7 @@ ASSUME = {
  'A6': 'A6: float64/complex128 arithmetic treated as exact real arithmetic in all proofs; native comparisons use relative tolerance 1e-8',
  'A8': 'A8: Sum lemma schemas (empty, peel-first/last, shift/reversal congruence, zero, split, linearity, negation) are proved in lean/SumLemmas.lean (Lean 4 + Mathlib, checked by setup.sh; status: ' + _lean_status() + '); what remains trusted is that vc/engine.py instantiates exactly these schemas',
  'A8b': 'A8b: causality theorems of the spec functions (coefficient n depends on the input coefficients <= n only) are used, for the composite kernels and composite pullbacks, as instances  (forall i <= n. a[i] = b[i]) -> T(a,n) = T(b,n);  their induction STEP is a discharged lemma obligation of the kernel contracts (listed under C12); the step -> theorem inference is strong induction on n, machine-checked as a schema in lean/SumLemmas.lean (causality_of_step, causality_of_step_pair, causality_of_step\u2082; status: ' + _lean_status() + '); what remains trusted is that each SMT-discharged step lemma is an instance of the schema\'s hypothesis (domain premises such as y[0] != 0 ride along unchanged)',
- 'A9': 'A9: the home-made symbolic executor (vc/engine.py) implements the Python/NumPy subset faithfully; audited by native execution of every function under contract against the independent spec interpreter, and by the mutation self-test',
+ 'A9': 'A9: the home-made symbolic executor (vc/engine.py) implements the Python/NumPy subset faithfully (operand kinds -- isinstance / numpy.isscalar tests -- are fixed by the contract configuration; arrays of one call have equal coefficient shapes; an array dtype is float, is not object, and any other dtype test is undecided); audited by native execution of every function under contract against the independent spec interpreter, and by the mutation self-test',
  'A10': 'A10: pytpcore is None and algopy is imported from /repo (asserted natively on every run)',
  'A11': 'A11: z3 is sound',
  'CPLX': 'complex coefficients: the VCs are ring/field identities proved over the reals; validity for complex cells rests on the transfer principle (polynomial identities over an infinite field) and on the bounded native runs with complex data',
